@@ -6,11 +6,13 @@ def parse(path):
     out={}
     if not path or not os.path.exists(path): return out
     for l in open(path):
-        m=re.match(r'(C\d+-\d+) check=([C\d:]+) exit=(\d+) \| (C\d+) (quick|thorough): (\d+) cases, (\d+) distinct non-trivial other (\{.*?\}) \|\s*(.*)',l)
+        m=re.match(r'(C\d+-\d+) check=([Casn\d:]+) exit=(\d+) \| (C\d+) (quick|thorough): (\d+) cases, (\d+) distinct non-trivial other (\{.*?\}) \|\s*(.*)',l)
         if m:
+            if out.get(m.group(1),{}).get('exit')==1: continue
             out[m.group(1)]={'check':m.group(2),'exit':int(m.group(3)),'tier':m.group(5),'cases':int(m.group(6)),'other':m.group(8),'first_violation':m.group(9).strip()[:160]}
-        elif re.match(r'(C\d+-\d+) check=([C\d:]+) exit=(\d+) \|\s*\|',l):
-            m2=re.match(r'(C\d+-\d+) check=([C\d:]+) exit=(\d+) \|\s*\|\s*(.*)',l)
+        elif re.match(r'(C\d+-\d+) check=([Casn\d:]+) exit=(\d+) \|\s*\|',l):
+            m2=re.match(r'(C\d+-\d+) check=([Casn\d:]+) exit=(\d+) \|\s*\|\s*(.*)',l)
+            if out.get(m2.group(1),{}).get('exit')==1: continue
             out[m2.group(1)]={'check':m2.group(2),'exit':int(m2.group(3)),'tier':'quick','cases':None,'other':'','first_violation':(m2.group(4).strip() or 'the search process died after the violation had been recorded (memory corrupted by the change); reported from the unshrunk replay')[:160]}
         elif 'APPLY-FAILED' in l or 'BUILD-FAILED' in l:
             out[l.split()[0]]={'error':l.strip()}
